@@ -234,10 +234,24 @@ package allocator
 //@   requires a >= 0 && b >= 0
 //@   ensures result == ite(a + b > 9223372036854775807, 9223372036854775807, a + b)
 //@   modifies nothing
+// cidrUsable: the usable addresses of one address block (C11: "the pool's number of usable addresses"): 2^(host bits),
+// minus - with AvoidBuggyIPs - two per /24 for blocks of /24 and larger, resp. the .0 / .255 ends of smaller blocks.
+// hugeCidr: an IPv6 block of 2^62 addresses or more counts as saturated.
+//@ pred hugeCidr(n *net.IPNet) := net.maskBits(n.Mask) - net.maskOnes(n.Mask) >= 62
+//@ fun cidrUsable(p *config.Pool, n *net.IPNet) int := ite(!p.AvoidBuggyIPs, math.pow2(net.maskBits(n.Mask) - net.maskOnes(n.Mask)),
+//@     ite(net.maskOnes(n.Mask) <= 24, math.pow2(net.maskBits(n.Mask) - net.maskOnes(n.Mask)) - math.pow2(24 - net.maskOnes(n.Mask)) * 2,
+//@         math.pow2(net.maskBits(n.Mask) - net.maskOnes(n.Mask)) - ite(Buggy(ipaddr.nthAddr(*n, 0)), 1, 0)
+//@             - ite(net.maskBits(n.Mask) - net.maskOnes(n.Mask) > 0 && Buggy(ipaddr.nthAddr(*n, ipaddr.prefixSize(*n) - 1)), 1, 0)))
+// poolCount: no count is negative; what a (non-huge) address block contributes to the sums is cidrUsable ([szIs]).
+// (That every block is accounted for - a lower bound of the three sums per block - was tried and is not claimed: carrying
+// the quantified fact across the ipaddr calls of the loop body exceeds the solver budget, see DESIGN changelog round 9.)
 //@ func poolCount
 //@   check overflow
 //@   requires PoolCIDRsOK(p)
 //@   ensures [nonneg] result0 >= 0 && result1 >= 0 && result2 >= 0
+//@   assert before saturatingAdd#1: [notHuge] !hugeCidr(cidr)
+//@   assert before saturatingAdd#1: [szIs] sz == cidrUsable(p, cidr)
+//@   assert before saturatingAdd#1: [cur] cidr == p.CIDR[idx(1)]
 //@   loop 1 binds cidr
 //@   loop 1 invariant total >= 0 && ipv4 >= 0 && ipv6 >= 0
 //@   modifies fresh *ipaddr.Prefix, fresh *ipaddr.Cursor, fresh *ipaddr.Position, fresh []ipaddr.Prefix, gint("cursor.pos")
